@@ -19,7 +19,7 @@ MANIFEST_INFO = {
     "design_ref": "DESIGN.md section 5, C18",
     "technique": "explicit-state BFS over add_rule/startTestRun/stopTestRun/status histories on a real StreamResultRouter with recording sinks, routing-precedence reference model per step; exhaustive enumeration of StreamToQueue/consuming-router nestings",
     "level_text": "All histories of <= 6 (quick) / 8 (thorough) operations over 12 rule kinds with a new sink each a refused add_rule (two-segment prefix) and 12 that add a further rule (with or without do_start_stop_run) for the fallback or the most recent sink (<=3 unambiguous rules), run start/stop and 21 status events (7 route codes of 0..4 segments x 3 test ids) are executed on a fresh real router per fallback configuration; after every operation every sink's log is compared with the model (exactly one destination, fields unchanged, exactly one leading segment consumed, start/stop delivered once to registered sinks only). The push/pop inverse is enumerated for every nesting of 1..3 StreamToQueue codes over 4 original route codes.",
-    "level_note": "Events are passed by keyword (as every caller in testtools does); ambiguous rule sets (two rules for one prefix or id) are documented as undefined and not generated.",
+    "level_note": "Events are passed by keyword (as every caller in testtools does); a later rule for the same prefix or id replaces the earlier one (one rule per key).",
 }
 
 T0 = datetime.datetime(2020, 1, 1, tzinfo=datetime.timezone.utc)
@@ -34,6 +34,17 @@ RULE_OPS = tuple(
 # the sink of the most recent rule ("last")
 SAME_OPS = tuple([("rule_prefix_same", p, t, d) for p in ("0", "1") for t in ("F", "last") for d in (False, True)] + [("rule_id_same", "a", t, d) for t in ("F", "last") for d in (False, True)])
 FALLBACKS = ("none", "fallback+startstop", "fallback-nostartstop", "falsyfallback+startstop")
+
+
+class EqStream(rec.Stream):
+    """Rule sinks compare equal to one another (value-like sinks: dataclasses, say) - which of them
+    is started and stopped must go by identity."""
+
+    def __eq__(self, other):
+        return isinstance(other, EqStream)
+
+    def __hash__(self):
+        return 7
 
 
 class FalsyStream(rec.Stream):
@@ -128,10 +139,8 @@ class System:
         out.append(("stopTestRun",) if m.in_run else ("startTestRun",))
         if m.nrules < self.max_rules:
             for op in RULE_OPS:
-                if op[0] == "rule_prefix" and op[1] in m.prefixes:
-                    continue  # ambiguous: documented as undefined
-                if op[0] == "rule_id" and op[1] in m.ids:
-                    continue
+                # (a second rule for a prefix or id REPLACES the first: the router keeps one rule
+                # per key, so there is nothing ambiguous about it)
                 out.append(op)
             for op in SAME_OPS:
                 if op[0] == "rule_prefix_same" and op[1] in m.prefixes:
@@ -191,7 +200,7 @@ class System:
                     m.ids[op[1]] = idx
                     impl.router.add_rule(sink, "test_id", test_id=op[1], do_start_stop_run=dss)
             elif name in ("rule_prefix", "rule_id"):
-                sink = rec.Stream()
+                sink = EqStream()
                 idx = len(impl.sinks)
                 impl.sinks.append(sink)
                 expected[idx] = []
